@@ -3,7 +3,7 @@
 (a) structure for ALL stream lengths: the real write_terminator / write_padding_bits / write_pad_codewords run on a
     buffer proxy whose length L is a free z3 Int and whose content is an uninterpreted bit function D(p); the number of
     pad codewords is concretised by forking. Obligation per path, with a free position p in [0, capacity):
-    bit_impl(p) == bit_iso(p)  and  total length >= capacity.
+    bit_impl(p) == bit_iso(p)  and  total length == ISO data capacity.
 (b) the same three functions on a real Buffer of L free bit variables for chosen L, compared bit by bit (data bits
     must be the identical terms, the tail the ISO constants).
 The tail of complete symbols is asserted again in C01 (reference decoder on the matrix).
@@ -20,7 +20,7 @@ FUNCTIONS = ['encoder.write_terminator', 'encoder.write_padding_bits', 'encoder.
              'encoder.Buffer.__len__']
 EXPLANATION = ('(a) real write_terminator/write_padding_bits/write_pad_codewords on a length-symbolic buffer proxy: L = z3 Int in a '
                'window, content = uninterpreted function D(p); the pad-codeword loop count is concretised by forking; per path one '
-               'query "exists L, p < capacity with impl_bit(p) != iso_bit(p) or length < capacity" must be unsat. '
+               'query "exists L, p < capacity with impl_bit(p) != iso_bit(p) or length != capacity" must be unsat. '
                '(b) the same functions on a real Buffer of free bit variables for listed L, compared bit by bit with the ISO tail.')
 BOUNDS = {'quick': '(a) all L in 0..capacity for Micro and versions 1-4; versions 5-40: L in [0,48], a 96-bit mid window and [cap-160, cap]; '
                    '(b) L in {0, cap-12..cap, 8 residues} for all 168 shapes',
@@ -216,14 +216,18 @@ def run_job(spec):
         want, a, e = iso_bit(v, cap, L, p)
         dev, _, _ = iso_bit(v, cap, L, p, extra_zero_codeword=True)
         inrange = [p >= 0, p < cap]
-        res.kinds.update(['stream-bit==ISO', 'length>=capacity'])
+        res.kinds.update(['stream-bit==ISO', 'length==capacity'])
         # length
         res.obligations += 1
-        r, m = check(pth.pc + [total < cap], 120000)
+        # exactly the ISO capacity; the recorded deviation (extra 00000000 codeword after an aligned terminated stream) also
+        # shows when the terminated stream ends exactly at the capacity: the extra codeword then lies beyond it (dropped
+        # by make_blocks) - allowed as that one shape only
+        beyond = z3.And(a == cap, total == cap + 8) if not micro_half else z3.BoolVal(False)
+        r, m = check(pth.pc + [total != cap, z3.Not(beyond)], 120000)
         if r == 'unsat':
             res.discharged += 1
         elif r == 'sat':
-            res.violation('short-stream', 'padded stream shorter than the data capacity', to_input(m))
+            res.violation('stream-length', 'padded stream is not exactly as long as the ISO data capacity', to_input(m))
         else:
             res.inconclusive.append('unknown: length')
         # domain of the recorded deviation (6a): terminated stream already codeword-aligned, room for one more codeword
@@ -355,18 +359,22 @@ def judge(v, lv, L, got, data):
     cap = T.data_bits(v, lv)
     want = list(data) + decoder.expected_tail(v, lv, L)
     same = lambda a, b: (a is b) or (isc(a) and isc(b) and a == b) or (not isc(a) and not isc(b) and a.eq(b))   # noqa
-    if len(got) >= cap and all(same(g, w) for g, w in zip(got[:cap], want)):
-        return True, None
-    # recorded deviation?
     t = min(cap - L, T.terminator_bits(v))
     a = L + t
+    # length: exactly the capacity (or the recorded extra zero codeword lying beyond the capacity, see run_job)
+    len_ok = len(got) == cap or (v not in (T.M1, T.M3) and a == cap and len(got) == cap + 8 and all(isc(b) and b == 0 for b in got[cap:]))
+    if len_ok and all(same(g, w) for g, w in zip(got[:cap], want)):
+        return True, None
+    if not len_ok:
+        return False, 'stream-length'
+    # recorded deviation?
     if v not in (T.M1, T.M3) and a % 8 == 0 and a < cap:
         dev = list(data) + [0] * t + [0] * 8
         k = 0
         while len(dev) + 8 <= cap:
             dev += [(T.PAD[k % 2] >> (7 - i)) & 1 for i in range(8)]
             k += 1
-        if len(got) >= cap and all(same(g, w) for g, w in zip(got[:cap], dev)):
+        if all(same(g, w) for g, w in zip(got[:cap], dev)):
             return False, KNOWN_ALIGNED
     return False, 'padding'
 
@@ -402,5 +410,7 @@ def replay(viol):
     if viol.get('key') != KNOWN_ALIGNED and key == KNOWN_ALIGNED:
         viol['key'] = KNOWN_ALIGNED
     cap = T.data_bits(v, lv)
+    if key == 'stream-length':
+        return True, f'{T.version_name(v)}-{lv} L={L}: padded stream has {len(got)} bits, ISO data capacity is {cap} bits'
     return True, (f'{T.version_name(v)}-{lv} L={L}: stream tail {"".join(map(str, got[L:cap]))[:72]} expected '
                   f'{"".join(map(str, decoder.expected_tail(v, lv, L)))[:72]}')
